@@ -29,6 +29,8 @@ Count(s, P(_)) == Cardinality({i \in 1..Len(s) : P(s[i])})
 IsInc(L) == \A i \in 1..Len(L)-1 : L[i] < L[i+1]
 IsDec(L) == \A i \in 1..Len(L)-1 : L[i] > L[i+1]
 Mono(L)  == IsInc(L) \/ IsDec(L)
+\* monotonic with ties allowed (repeated neighbouring labels): what the bounding-box rule of label slices needs
+MonoEq(L) == (\A i \in 1..Len(L)-1 : L[i] <= L[i+1]) \/ (\A i \in 1..Len(L)-1 : L[i] >= L[i+1])
 \* direction of a monotonic axis; axes of fewer than two labels count as increasing
 Dir(L)   == IF Len(L) < 2 \/ L[Len(L)] >= L[1] THEN 1 ELSE -1
 
@@ -76,7 +78,7 @@ LocSlice(L, numeric, lo, hi, st) ==
       fwd == IsNone(st) \/ Val(st) > 0
       k   == IF IsNone(st) THEN 1 ELSE Abs(Val(st))
   IN IF n = 0 THEN [ok |-> TRUE, pos |-> <<>>]
-     ELSE IF numeric /\ Mono(L) THEN
+     ELSE IF numeric /\ MonoEq(L) THEN
        LET order == IF fwd THEN Idx(L) ELSE Rev(Idx(L))
            d     == IF fwd THEN Dir(L) ELSE -Dir(L)
        IN [ok |-> TRUE, pos |-> Every(SelectSeq(order, LAMBDA i : Between(L[i], lo, hi, d)), k)]
